@@ -31,10 +31,34 @@ def make_job(rng, idx, quick):
     return {"cfg": cfg, "env": env, "N": N, "seed": rng.next() & 0xffffffff, "idx": idx}
 
 
+def c18lib_expand(tokens):
+    out = []
+    for t in tokens:
+        if "*" in t:
+            a, n = t.split("*"); out += [a] * int(n)
+        else:
+            out.append(t)
+    return out
+
+
 def job_ops(job, plan):
     rng = common.Rng(job["seed"])
     sizes = cr.gen_sizes(rng, plan)
     ops = [cr.create_line(job["cfg"]), "limit %d" % job["N"]]
+    if not job.get("blocks") and rng.chance(.22):
+        # the pull API (soxr_set_input_fn + soxr_output): the same totals, "then none", and a return of 0 only once everything owed is out.
+        # Requests down to a single frame (the library then asks its input function for ceil(olen*io_ratio) frames - one frame, not
+        # none, when up-sampling), supplies down to a single frame, streams shorter than the filters' latency (end-of-input then arrives in
+        # a pass that has produced nothing).  Round 7 of the seeded changes: `C03-pull-request-rounded-to-nearest`,
+        # `C03-was-flushing-sampled-after-input`.
+        ops.append("setfn %d" % rng.choice([0, 0, 64, 1000, 7, 1]))
+        pat = rng.choice([["d1000000"], ["d%d" % (1 + rng.below(3000)) for _ in range(8)], ["d7", "d1", "d4096"], ["d1"], ["d3", "d1"]])
+        est = int(job["N"] / cr.io_ratio(job["cfg"])) + 10
+        ol = max(rng.choice([1, 1, 2, 5, 64, 1000, 4096, est]), est // 400 + 1)
+        for i in range(est // ol + 6):
+            ops.append("pull %d %s" % (ol, " ".join(pat)))
+        ops += ["pull 100 %s" % " ".join(pat), "pull 1 %s" % " ".join(pat), "delay", "hash"]
+        return ops
     if rng.chance(.35):     # end-of-input signalled by in == NULL together with a non-zero (stale) ilen
         ops.append("stale %d" % rng.choice([1, 37, 300, 100000]))
     ops.append("eoistyle %d" % rng.below(6))   # how end-of-input is said and how the drain calls look (harness/cr/trace.c after_end)
@@ -75,6 +99,7 @@ def oracle(job, tr):
     drained_at = None
     olen = 0
     cur = None
+    pull_ans = None
     for l in tr.lines:
         if l.startswith("> cr.proc"):
             t = l.split()
@@ -85,10 +110,24 @@ def oracle(job, tr):
                 flushed = True
         elif l.startswith("> cr.eoi"):                           # end-of-input by a call without buffers
             flushed = True; olen = 0; cur = None
+        elif l.startswith("> cr.pull"):                          # answers of the input function in this call: all but the two look-ahead tokens
+            t = l.split(); olen = int(t[2]); cur = None
+            pull_ans = c18lib_expand(t[3:])[:-2] if len(t) > 3 else []
         elif l.startswith("< R "):
             r = cr.parse_kv(l)
             if "id" not in r:
                 continue
+            if pull_ans is not None:
+                for a in pull_ans[:int(r.get("used", 0))]:
+                    if a in ("e", "f"):
+                        flushed = True
+                    else:
+                        fed += int(a[1:])
+                if int(r["od"]) < olen and not flushed and " err=0" in l:
+                    # soxr.h: soxr_output returns fewer frames than asked for only at the end of the stream
+                    bad.append(("pull-short", "soxr_output returned %s of %d frames although the input function had not yet reported end-of-input" % (r["od"], olen)))
+                    break
+                pull_ans = None
             if cr.marked_whole(cur, r):
                 flushed = True
             fed += int(r["id"]); od = int(r["od"]); out += od
